@@ -145,7 +145,7 @@ func HarnessC13PoolReuse() {
 // Handler; the scheduler explores preemptions at every synchronisation point
 // and every pool operation.
 //
-//verif:harness property=C13 stubs=json,wire sched=explore preempt=1 preemptT=2 shard=proto:3
+//verif:harness property=C13 stubs=json,wire sched=explore preempt=1 preemptT=1 shard=proto:3
 func HarnessC13ConcurrentCalls() {
 	proto := nondetChoice("proto", 3)
 	client := c13Client(proto, nondetBool("compress"))
@@ -169,7 +169,7 @@ func HarnessC13ConcurrentCalls() {
 
 // HarnessC13DuplexStream: one stream, a sender goroutine and a receiver goroutine.
 //
-//verif:harness property=C13 stubs=json,wire sched=explore shard=proto:3
+//verif:harness property=C13 stubs=json,wire sched=explore preempt=2 preemptT=3 shard=proto:3
 func HarnessC13DuplexStream() {
 	proto := nondetChoice("proto", 3)
 	handler := NewBidiStreamHandler("/pkg.Svc/Method", func(ctx context.Context, s *BidiStream[[]byte, []byte]) error {
